@@ -2,7 +2,10 @@
 
 Small-scope exhaustive input enumeration: EVERY `or` tree shape with n leaves (n=1 is a non-union root),
 EVERY duplicate-free placement of field annotations from {none, %a, %b, %default, %root} on leaves AND inner
-nodes AND the root, and every full value (each leaf x 1-2 leaf values) x every rendering mode is driven through
+nodes AND the root - the two free names %a/%b additionally under every SPELLING of the annotation character set
+(dot/underscore twins, '%'/'@' inside the name, leading digit/underscore, near-misses of the reserved names incl. the
+library's own fallback `_root`, 31-character names) - and every full value (each leaf x 1-2 leaf values) x every
+rendering mode is driven through
 the real ParameterSection.match / list_entrypoints / from_parameters / to_parameters and judged against
 mc/ref/entrypoints.py (plain Python model of Tezos' entrypoint rules, validated against the node's recorded
 /entrypoints answers for 20 mainnet contracts).
@@ -13,8 +16,9 @@ Judged:
      at most one library-chosen name that collides with no branch;
  (2) every full value v: (e, a) = to_parameters(v, mode) must denote v (wrap a in the Left/Right path of e) and
      from_parameters((e, a)) must be v again;
- (3) every listed e and every argument a of its type: from_parameters(e, a) is the Tezos wrapping of a, and
-     converting that back to a pair and forth again is the same value.
+ (3) every listed e and every argument a of its type: from_parameters(e, a) is the Tezos wrapping of a, converting
+     that back to a pair and forth again is the same value, and the pair that comes back is (e, a) ITSELF whenever a
+     selects no entrypoint below e (when it does, the deeper pair denotes the same value and is accepted).
 Not judged (counted as no verdict): values that Tezos itself cannot address (a %default branch exists, the root is
 unannotated, and no node on the value's path is annotated: Tezos rejects such a type as Unreachable_entrypoint)
 unless the library lists a non-colliding root name; the unlisted implicit `default` of an ANNOTATED root; what the name
@@ -32,18 +36,34 @@ from mc.ref import entrypoints as ref
 ID = 'C13'
 LEVEL = 'exploration'
 RULE = ('every or-tree shape with n leaves x every duplicate-free annotation placement over {none,%a,%b,%default,%root} on '
-        'all 2n-1 nodes x every full value (leaf x leaf values) x modes {readable,optimized,legacy_optimized}, plus every '
-        '(listed entrypoint, argument); non-trivial = distinct (type, full value) whose selected leaf is unannotated, or '
-        'that passes an annotated inner/root node, or whose type uses %default/%root')
-BOUND = {'quick': 'n<=4 leaves (all 1+1+2+5 shapes), 5 annotation choices per node without duplicates, 1-2 values per leaf, 3 modes',
-         'thorough': 'n<=5 leaves (all 1+1+2+5+14 shapes), same alphabet'}
+        'all 2n-1 nodes x every spelling of (a,b) from SPELLINGS (plain letters; dot/underscore twins; %/@ inside; leading '
+        'digit/underscore; Default/_root near-misses; 31 characters) x every full value (leaf x leaf values) x modes '
+        '{readable,optimized,legacy_optimized}, plus every (listed entrypoint, argument) judged pair -> full -> pair; '
+        'non-trivial = distinct (type, full value) whose selected leaf is unannotated, or that passes an annotated '
+        'inner/root node, or whose type uses a name other than plain a/b (reserved or specially spelled)')
+BOUND = {'quick': 'plain spelling: n<=4 leaves (all 1+1+2+5 shapes); the 5 other spellings: n<=3 leaves; 5 annotation choices per '
+                  'node without duplicates, 1-2 values per leaf, 3 modes',
+         'thorough': 'plain spelling: n<=5 leaves (all 1+1+2+5+14 shapes); the 5 other spellings: n<=4 leaves; same alphabet'}
 ASSUMPTIONS = ['mc/ref/entrypoints.py states Tezos entrypoint rules (selftest: node /entrypoints answers of 20 mainnet contracts + recorded calls)',
                'equality of values = equality of their readable Micheline rendering',
+               'entrypoint names are the field annotations verbatim (Tezos: [_0-9a-zA-Z][_0-9a-zA-Z.%@]*, at most 31 characters)',
                'OrType.to_micheline_value renders Left/Right compositionally (checked separately by C11)']
 LEVEL_TEXT = ('exhaustive over all union shapes and annotation placements up to the leaf bound; every value path of every type is '
               'converted both ways; nothing is sampled, so a placement-dependent failure inside the bound cannot be missed')
 
-NAMES = [None, 'a', 'b', 'default', 'root']
+NAMES = [None, 'a', 'b', 'default', 'root']   # tokens; 'a' and 'b' are spelled through SPELLINGS[sp]
+# Spellings of the two free names.  Tezos takes an entrypoint name verbatim from the annotation; every character of the
+# annotation alphabet [_0-9a-zA-Z.%@] is legal after the first, names are case-sensitive and at most 31 characters long.
+# Each pair is collision-forcing: the two names become equal under the obvious normalisations (separator folding, case
+# folding, stripping, truncation), or coincide with a name the library reserves for itself.
+SPELLINGS = [
+    ('a', 'b'),                       # plain
+    ('a.b', 'a_b'),                   # dot / underscore twins
+    ('a%b', 'a@b'),                   # the annotation sigils inside a name
+    ('0', '_'),                       # leading digit, bare underscore
+    ('Default', '_root'),             # case variant of a reserved name; the library's own fallback name for the root
+    ('x' * 31, 'x' * 30 + '.'),       # maximal length, differing in the last character only
+]
 MODES = ['readable', 'optimized', 'legacy_optimized']
 TZ1 = 'tz1VSUr8wwNhLAzempoch5d6hLRiTh8Cjcjb'
 
@@ -79,8 +99,12 @@ def count_nodes(shape):
     return 1 if shape == 'L' else 1 + count_nodes(shape[0]) + count_nodes(shape[1])
 
 
-def build(shape, annots):
-    """Type expression for a shape with the pre-order annotation list `annots`."""
+def spell(name, sp):
+    return {'a': SPELLINGS[sp][0], 'b': SPELLINGS[sp][1]}.get(name, name)
+
+
+def build(shape, annots, sp=0):
+    """Type expression for a shape with the pre-order annotation list `annots` (tokens, spelled by SPELLINGS[sp])."""
     it = iter(annots)
     leaf_no = itertools.count()
 
@@ -91,14 +115,36 @@ def build(shape, annots):
         else:
             node = {'prim': 'or', 'args': [go(s[0]), go(s[1])]}
         if name is not None:
-            node['annots'] = ['%' + name]
+            node['annots'] = ['%' + spell(name, sp)]
         return node
 
     return go(shape)
 
 
-def annotations(k, first):
-    """Duplicate-free assignments of NAMES to k nodes (pre-order) whose root gets `first`."""
+def prefixes(plen):
+    """Duplicate-free assignments of NAMES to the first plen nodes (pre-order)."""
+    out = [()]
+    for _ in range(plen):
+        out = [p + (nm,) for p in out for nm in NAMES if nm is None or nm not in p]
+    return out
+
+
+def n_annotations(k, prefix):
+    """len(list(annotations(k, prefix))) in closed form: j of the free nodes named, injectively, from the unused names."""
+    free, m = k - len(prefix), len(NAMES) - 1 - sum(1 for x in prefix if x)
+    total = 0
+    for j in range(min(free, m) + 1):
+        ways = 1
+        for i in range(j):
+            ways = ways * (free - i) * (m - i) // (i + 1)
+        total += ways
+    return total
+
+
+def annotations(k, prefix):
+    """Duplicate-free assignments of NAMES to k nodes (pre-order) whose first nodes get `prefix`."""
+    prefix = tuple(prefix)
+
     def go(i, used):
         if i == k:
             yield ()
@@ -108,8 +154,8 @@ def annotations(k, first):
                 continue
             for rest in go(i + 1, used | ({nm} if nm else set())):
                 yield (nm,) + rest
-    for rest in go(1, {first} if first else set()):
-        yield (first,) + rest
+    for rest in go(len(prefix), {x for x in prefix if x}):
+        yield prefix + rest
 
 
 def values_of(node):
@@ -198,12 +244,17 @@ def check_listing(p, t):
     return out, f'listing: {len(R)} tezos names + {len(extra)} root names'
 
 
-def check_value(p, t, v, mode):
-    """(2): full value -> pair -> full value."""
+def listing_or_empty(p):
     try:
-        L = impl_listing(p)
+        return impl_listing(p)
     except Exception:
-        L = {}
+        return {}
+
+
+def check_value(p, t, v, mode, L=None):
+    """(2): full value -> pair -> full value.  `L`: the library's listing of the type if the caller has it already."""
+    if L is None:
+        L = listing_or_empty(p)
     extras = extra_root_names(t, L)
     vp = ref.value_path(t, v) if t.get('prim') == 'or' else ''
     leaf_annotated = ref.field_annot(ref.node_at(t, vp)) is not None
@@ -271,11 +322,32 @@ def check_call(p, t, e, a, path):
     if again != want:
         d = COLLIDE if collides(p, t, pr['entrypoint']) else 'full value -> pair -> full value changes the value'
         return [(d, f'type={t} e={e} a={a} pair={pr} again={again}')], 'call ok, round trip differs'
-    same = 'same entrypoint' if pr['entrypoint'] == e else 'deeper entrypoint'
-    return [], f'call ok, back to {same}'
+    below = deeper_entrypoints(t, path, want)
+    if collides(p, t, e) or collides(p, t, pr.get('entrypoint')):
+        return [], 'call ok, name shared by the root and a branch (pair not judged)'
+    if not below:
+        # the argument selects no entrypoint of its own: the statement's pair -> full -> pair round trip is literal
+        if pr.get('entrypoint') != e:
+            return [(BACK_NAME, f'type={t} e={e} a={a} full={want} back={pr}')], 'call ok, comes back under another entrypoint'
+        if pr.get('value') != a:
+            return [(BACK_ARG, f'type={t} e={e} a={a} full={want} back={pr}')], 'call ok, comes back with another argument'
+        return [], 'call ok, back to the same pair'
+    return [], ('call ok, argument selects a deeper entrypoint: back to '
+                + ('the same pair' if pr.get('entrypoint') == e else 'a deeper entrypoint'))
 
 
-def calls_of(p, t):
+BACK_NAME = 'pair -> full value -> pair comes back under a different entrypoint although the argument selects none below it'
+BACK_ARG = 'pair -> full value -> pair comes back with a different argument'
+
+
+def deeper_entrypoints(t, path, full):
+    """Names of the annotated nodes strictly below `path` on the way to the leaf the full value selects."""
+    vp = ref.value_path(t, full) if t.get('prim') == 'or' else ''
+    return [ref.field_annot(ref.node_at(t, vp[:i])) for i in range(len(path) + 1, len(vp) + 1)
+            if ref.field_annot(ref.node_at(t, vp[:i])) is not None]
+
+
+def calls_of(p, t, L=None):
     """(entrypoint, argument, path) for every Tezos-listed entrypoint and every library root name."""
     out = []
     for name, (path, ty) in ref.listed(t).items():
@@ -283,10 +355,7 @@ def calls_of(p, t):
             path = ''  # the library lists this name with the root type; only the round trip is judged (see COLLIDE)
         for a in values_of(ref.node_at(t, path)):
             out.append((name, a, path))
-    try:
-        extras = extra_root_names(t, impl_listing(p))
-    except Exception:
-        extras = ()
+    extras = extra_root_names(t, listing_or_empty(p) if L is None else L)
     for name in extras:
         for a in values_of(t):
             out.append((name, a, ''))
@@ -297,18 +366,26 @@ def nontrivial(t, v):
     vp = ref.value_path(t, v) if t.get('prim') == 'or' else ''
     on_path = [vp[:i] for i in range(len(vp) + 1) if ref.field_annot(ref.node_at(t, vp[:i])) is not None]
     names = ref.all_names(t)
-    return on_path != [vp] or 'default' in names or 'root' in names
+    return on_path != [vp] or any(nm not in SPELLINGS[0] for nm in names)
 
 
 # ------------------------------------------------------------------ driver interface
+PREFIX = 2   # a shard = (spelling, leaves, shape, annotations of the first PREFIX nodes in pre-order)
+
+
 def shards(tier, seed):
-    nmax = 4 if tier == 'quick' else 5
+    nmax = 4 if tier == 'quick' else 5      # plain spelling
+    smax = 3 if tier == 'quick' else 4      # every other spelling
     out = []
-    for n in range(1, nmax + 1):
-        for si, _ in enumerate(shapes(n)):
-            for first in NAMES:
-                out.append((n, si, first))
-    return out
+    for sp in range(len(SPELLINGS)):
+        for n in range(1, (nmax if sp == 0 else smax) + 1):
+            for si, shape in enumerate(shapes(n)):
+                k = count_nodes(shape)
+                for prefix in prefixes(min(PREFIX, k)):
+                    out.append((n_annotations(k, prefix) * n * n, sp, n, si, prefix))
+    # heaviest first: the runner deals shards round-robin to its workers, so lanes come out balanced (and deterministic)
+    out.sort(key=lambda x: -x[0])
+    return [x[1:] for x in out]
 
 
 def run_type(r, t):
@@ -328,13 +405,14 @@ def run_type(r, t):
     for d, detail in vs:
         r.viol(d, {'type': t}, detail)
     case = {'type': t}
+    L = listing_or_empty(p)
     for v in values_of(t):
         if nontrivial(t, v):
             r.nt((tkey, json.dumps(v, sort_keys=True)))
         for mode in MODES:
             case = {'type': t, 'value': v, 'mode': mode}
             r.ev()
-            vs, label = check_value(p, t, v, mode)
+            vs, label = check_value(p, t, v, mode, L)
             r.out(label)
             if vs is None:
                 r.no_verdict += 1
@@ -343,11 +421,13 @@ def run_type(r, t):
                 r.extra['denotation_not_judged_round_trip_judged'] += 1
             for d, detail in vs:
                 r.viol(d, case, detail)
-    for e, a, path in calls_of(p, t):
+    for e, a, path in calls_of(p, t, L):
         c = {'type': t, 'entrypoint': e, 'arg': a}
         r.ev()
         vs, label = check_call(p, t, e, a, path)
         r.out(label)
+        if 'not judged' in label:
+            r.extra['pair_not_judged_round_trip_judged'] += 1
         for d, detail in vs:
             r.viol(d, c, detail)
     if ref.field_annot(t) is not None and ref.default_is_root(t):
@@ -362,13 +442,14 @@ def run_type(r, t):
 
 
 def run_shard(spec, tier):
-    n, si, first = spec
+    sp, n, si, prefix = spec
     shape = shapes(n)[si]
     r = Result()
     case = None
-    for i, ann in enumerate(annotations(count_nodes(shape), first)):
-        t = build(shape, ann)
-        assert ref.all_names(t) == [x for x in ann if x] and not ref.has_duplicates(t)
+    for i, ann in enumerate(annotations(count_nodes(shape), prefix)):
+        t = build(shape, ann, sp)
+        assert ref.all_names(t) == [spell(x, sp) for x in ann if x] and not ref.has_duplicates(t)
+        assert all(len(x) <= 31 for x in ref.all_names(t))
         case = run_type(r, t)
         if n > 1 and i in (0, 7):
             r.sample(case)
